@@ -13,10 +13,13 @@ def n(x):
   return s
 
 
+NSTMT = open(os.path.join(ROOT, 'vt', 'stmtfam.py')).read().count('\n@design(')
+NMANGLE = 12
+
 FMT = {
   "C01": lambda c: f"{n(c['designs'])} generated designs + {n(c.get('stmt_family_designs', 0))} statement-family designs, {n(c['schedules_run'])} schedules executed (5 pass groups, {n(c['linear_extensions'])} linear extensions x ff orders, shuffle-seam DFS on {n(c['seam_designs'])} designs), {n(c['states'])} all-signal comparisons; {n(c['distinct_nontrivial'])} designs order-sensitive with >= 2 schedules; extension cap {c['ext_cap']} hit on {n(c['ext_cap_hits'])} designs (reported, `exhaustive:false`)",
   "C02": lambda c: f"{n(c['designs'])} designs, {n(c['evaluations'])} recorded executions, {n(c['required_pairs'])} writer-before-reader / explicit obligations, {n(c['seam_schedules'])} seam schedules, {n(c['cyclic_rejections'])} cyclic-constraint rejections",
-  "C03": lambda c: f"{n(c['programs'])} designs translated ({n(c['expression_statements'])} expression / statement blocks, 57 hand-written statement designs with reference functions), {n(c['evaluations'])} (design, input step) comparisons of every output port; {n(c['not_translatable'])} designs refused by the backend",
+  "C03": lambda c: f"{n(c['programs'])} designs translated ({n(c['expression_statements'])} expression / statement blocks, {NSTMT} hand-written statement designs with reference functions), {n(c['evaluations'])} (design, input step) comparisons of every output port; {n(c['not_translatable'])} designs refused by the backend",
   "C04": lambda c: f"{n(c['evaluations'])} operator / constructor / fresh-result cases, all widths 1..{c['widths_covered']} on the boundary alphabet, protocol graph {n(c['states'])} states / {n(c['transitions'])} transitions closed",
   "C05": lambda c: f"{n(c['evaluations'])} slice / index / concat / ext / reduce / clog2 cases (all values of widths 1..7)",
   "C06": lambda c: f"{n(c['shapes'])} struct shapes ({n(c['shapes_with_lists'])} with list fields), {n(c['evaluations'])} (shape, value) cases, {n(c['alias_histories'])} alias histories",
@@ -26,7 +29,7 @@ FMT = {
   "C10": lambda c: f"{n(c['blocks_accepted'] + c['blocks_rejected'])} blocks type-checked one by one ({n(c['blocks_accepted'])} accepted and executed with probes on 192 inputs; {n(c['accepted_blocks_checked_strictly'])} of them outside the two known-finding classes), {n(c['literals'])} literals",
   "C11": lambda c: f"{n(c['designs'])} cyclic designs x 2 cyclic-capable + 3 acyclic-only pass groups, {n(c['states'])} returned evaluations re-checked as fixed points, {n(c['diverge_reported'])} divergences reported by the simulator",
   "C12": lambda c: f"{n(c['programs'])} designs through the Yosys backend, {n(c['evaluations'])} comparisons, ports driven leaf by leaf",
-  "C13": lambda c: f"{n(c['pairs'] // 2)} instance pairs x 2 backends, {n(c['determinism_designs'])} (design, backend) texts x {c['determinism_runs']} runs (6 hash-seed child processes + 3 object-hash permutations), 9 mangling designs",
+  "C13": lambda c: f"{n(c['pairs'] // 2)} instance pairs x 2 backends, {n(c['determinism_designs'])} (design, backend) texts x {c['determinism_runs']} runs (6 hash-seed child processes + 3 object-hash permutations), {NMANGLE} mangling designs",
   "C14": lambda c: f"{n(c['hierarchies'])} hierarchies elaborated twice, {n(c['evaluations'])} names evaluated back, {n(c['lazily_created_objects'])} lazily created objects",
   "C15": lambda c: f"{n(c['evaluations'])} replacement histories (length <= 2) on a real elaborated design, {n(c['states'])} configurations, each compared with the from-scratch build",
   "C16": lambda c: f"{n(c['designs'])} designs x all sequences of length 3: {n(c['evaluations'])} dumps parsed back, {n(c['states'])} (signal, cycle) points",
